@@ -200,25 +200,7 @@ func Pure(p *core.Prog, r *core.Report) {
 							k = i
 						}
 					}
-					scratch, sites := true, 0
-					for _, caller := range p.Funcs {
-						core.EachInstr(caller, func(j ssa.Instruction) {
-							c, ok := j.(ssa.CallInstruction)
-							if !ok || core.StaticCallee(c) != f || k < 0 || k >= len(c.Common().Args) {
-								return
-							}
-							sites++
-							a := c.Common().Args[k]
-							if _, fresh := a.(*ssa.MakeMap); fresh {
-								return
-							}
-							if caller == f && a == ssa.Value(prm) {
-								return
-							}
-							scratch = false
-						})
-					}
-					if scratch && sites > 0 {
+					if k >= 0 && scratchMapParam(p, f, k, map[[2]interface{}]bool{}) {
 						return
 					}
 				}
@@ -549,6 +531,19 @@ func Pure(p *core.Prog, r *core.Report) {
 			clause(true, "EnumCase:fold-valid-runes", p.Pos(f.Pos()), "strings.EqualFold only sees runes of which neither is a lone invalid byte", "")
 		}
 		clause(fold, "EnumCase:fold", p.Pos(f.Pos()), "case-insensitive comparison through strings.EqualFold", "case folding for strings is gone")
+	}
+	// ---- polarity of the comparisons inside the equality predicates ---------------------------------
+	{
+		var roots []*ssa.Function
+		for _, n := range []string{"Enum", "EnumCase", "UniqueItems"} {
+			if f := p.Func(n); f != nil {
+				roots = append(roots, f)
+			}
+		}
+		bad, n, preds := equalityPolarity(p, roots)
+		r.Count("equality_polarity_comparisons", n)
+		r.Floor("equality_polarity_comparisons", 4)
+		clause(len(bad) == 0, "equality:polarity", "-", fmt.Sprintf("in the equality predicates below Enum/EnumCase/UniqueItems (%s), each of the %d comparisons of a part of one operand with a part of the other decides in the right direction", strings.Join(preds, ", "), n), "an equality predicate decides in the wrong direction: "+strings.Join(bad, "; "))
 	}
 	// ---- UniqueItems -------------------------------------------------------------------------------
 	if f := p.Func("UniqueItems"); f != nil {
@@ -1171,4 +1166,38 @@ func falseImplies(v ssa.Value, establishes func(ssa.Value, bool) int, d int) []i
 		out = append(out, k)
 	}
 	return out
+}
+
+// scratchMapParam: parameter k of f only ever receives maps made for the purpose — at every call site of f the
+// argument is a fresh make(map), or a parameter of the calling function for which the same holds (assumed while
+// it is being established: the recursion hands its own parameter on). At least one call site must exist.
+func scratchMapParam(p *core.Prog, f *ssa.Function, k int, assumed map[[2]interface{}]bool) bool {
+	key := [2]interface{}{f, k}
+	if assumed[key] {
+		return true
+	}
+	assumed[key] = true
+	ok, sites := true, 0
+	for _, caller := range p.Funcs {
+		core.EachInstr(caller, func(j ssa.Instruction) {
+			c, is := j.(ssa.CallInstruction)
+			if !is || core.StaticCallee(c) != f || k >= len(c.Common().Args) {
+				return
+			}
+			sites++
+			a := c.Common().Args[k]
+			if _, fresh := a.(*ssa.MakeMap); fresh {
+				return
+			}
+			if prm, isP := a.(*ssa.Parameter); isP {
+				for i, q := range caller.Params {
+					if q == prm && scratchMapParam(p, caller, i, assumed) {
+						return
+					}
+				}
+			}
+			ok = false
+		})
+	}
+	return ok && sites > 0
 }
